@@ -39,6 +39,9 @@ EXPLANATION = (
     "the table's own Ethernet positions, out-of-machine filter, FPGA lookup "
     "keyed by the on-board coordinate, x12 scaling and %3 guard of "
     "standard_system_dimensions.")
+EXPLANATION += (
+    " R2 also reads a wrap-around written with tests: each alternative of "
+    "a coordinate may mention only its own dimension.")
 NOT_DECIDED = [
     "standard_system_dimensions' 'squarest factor pair' search (arithmetic "
     "over all board counts; only its guard, its factor relation w*h == "
